@@ -79,6 +79,18 @@ CHECKS = {
         "note": NOTE_COMMON + " 'dynamically resolved' is read as: the compiled call carries no constant hint for its callee (DESIGN.md section 10).",
         "technique": "Coq soundness proof of the analysis model against a nondeterministic execution relation + IR-abstraction correspondence",
     },
+    "C10": {
+        "text": "Two theorems carry the claim. (1) For EVERY straight-line program the analysis model tracks provenance soundly: a value "
+                "attributed to zone z is exactly z (SpecZone) or a chain of views over z (GetItemOfZone/GetSubGridOfZone layers), a value flagged "
+                "invalid is never computed, containers and non-grid results claim nothing - folded constants included (zone index lookup of the "
+                "grid / of a SubGrid's parent). (2) Geometry over exact rationals: a view with ascending in-range indices shows only positions of "
+                "its parent. The unrestricted form of (2) is refuted in Coq with a witness (index list [2;0;1]) - a recorded known finding whose "
+                "root cause is bloqade.geometry's SubGrid arithmetic. Tie: the analysis model is compared with ZoneAnalysis entries for every "
+                "top-level SSA value of generated kernels (two specs, unfolded and folded), and site containment is checked on run-time values "
+                "recorded by an instrumented interpreter.",
+        "note": NOTE_COMMON + " Values inside branches/loops/callees get no entries from the analysis (no method tables for scf/func) and are outside the model.",
+        "technique": "Coq soundness proof of the abstract transfer functions (provenance) + exact-rational geometry lemma + correspondence",
+    },
     "C11": {
         "text": "Theorems: every path the tracer model yields is well formed (invariant proved for all op sequences) and reversal preserves "
                 "well-formedness. wfb is evaluated in Coq on every path produced by generated kernels, library kernels and their reversals; a Python "
